@@ -197,7 +197,11 @@ func (e *renv) phaseV1(r *Rng, s *sinks, d density, p, otherPath *ibctesting.Pat
 		done(attempt(s, m, label))
 	}
 	seq := k.pkt.Sequence
-	for _, sv := range shuffled(r, e.statesV1(ep, seq, !isAck))[:d.states] {
+	svs := shuffled(r, e.statesV1(ep, seq, !isAck))
+	if len(svs) > d.states {
+		svs = svs[:d.states]
+	}
+	for _, sv := range svs {
 		sv.apply()
 		done(attempt(s, base, "state:"+sv.name))
 		m, label := applyV1(base, Pick(r, strict))
